@@ -50,7 +50,7 @@ pub fn run(shard: &Shard) -> i32 {
     });
     // part 2: random instances of all families x random configurations
     let rshard = Shard { resume: 0, ..shard.clone() };
-    let max = if shard.quick() { 400_000 } else { 20_000_000 };
+    let max = u64::MAX;
     case_loop(&rshard, max, |_i, rng| {
         let profile = Profile { with_dominance: true, small: rng.chance(1, 3), depth_free_bias: rng.chance(1, 3), ..Default::default() };
         let spec = random_spec(rng, &profile);
